@@ -42,6 +42,9 @@ bool Value::extract_values(std::vector<std::vector<uint8_t>>& values) {
 }
 
 void Value::verify_sig(bool compact) {
+    // CPubKey / XOnlyPubKey verification needs the secp256k1 verification context; btcdeb and tap hold one through their
+    // Instance, btcc (inline verify_sig(...)) does not
+    static ECCVerifyHandle verify_handle;
     // the value is a script-style push of the sighash, pubkey, and signature
     if (type != T_DATA) abort("invalid type (must be data)");
     std::vector<std::vector<uint8_t>> args;
